@@ -89,6 +89,10 @@ def gen_history(rng, profile=None, max_ops=40):
             for lvl in (0, 3, 2, 1):
                 if rng.random() < 0.4:
                     lim.append([lvl, rng.choice([1, 1, 2, 3])])
+        # a declared limit of 0 ("none of this affinity below such a node") on about one limited affinity in eight; chosen
+        # from the values already drawn, so the random stream of everything that follows is the one it was before
+        if lim and (sum(v for _l, v in lim) + 3 * len(lim) + a) % 8 == 0:
+            lim[-1][1] = 0
         aff_limits[a] = lim
 
     def new_app():
